@@ -2,6 +2,7 @@ package verifharness
 
 import (
 	"bufio"
+	"encoding/base64"
 	"encoding/json"
 	"fmt"
 	"io"
@@ -59,6 +60,9 @@ type lcClient struct {
 	Offered       []net.Conn // every work conn this client opened
 	offClosed     map[net.Conn]bool
 	syncSeq       int
+	UDPEcho       bool     // answer datagram frames on udp work connections
+	UDPBad        []string // datagram frames a released peer could not decode
+	UDPGot        []string
 	ReqSeen       []time.Duration
 	natSids       int
 	NatSidList    []string   // session ids handed to this client's xtcp proxies
@@ -249,10 +253,36 @@ func (c *lcClient) runWork(conn net.Conn) {
 		}
 		return
 	case "udp", "sudp":
-		// datagram work connection: frames only; stay silent and drain
+		// datagram work connection: frames only. By default stay silent and drain; with UDPEcho every datagram
+		// frame is decoded the way a released peer does (padded standard base64) and answered with 'R'+payload.
 		for {
-			if _, _, err := readFrame(conn); err != nil {
+			t, b, err := readFrame(conn)
+			if err != nil {
 				return
+			}
+			c.smu.Lock()
+			echo := c.UDPEcho
+			if len(c.WorkFrames) < 400 {
+				c.WorkFrames = append(c.WorkFrames, RecvMsg{Type: t, Body: b, At: c.w.Net.Now()})
+			}
+			c.smu.Unlock()
+			if !echo || t != tUDPPacket {
+				continue
+			}
+			um := M{}
+			if json.Unmarshal(b, &um) != nil {
+				continue
+			}
+			payload, derr := base64.StdEncoding.DecodeString(mstr(um, "c"))
+			c.smu.Lock()
+			if derr != nil {
+				c.UDPBad = append(c.UDPBad, fmt.Sprintf("content %q: %v", mstr(um, "c"), derr))
+			} else {
+				c.UDPGot = append(c.UDPGot, string(payload))
+			}
+			c.smu.Unlock()
+			if derr == nil {
+				writeMsg(conn, tUDPPacket, M{"c": base64.StdEncoding.EncodeToString(append([]byte{'R'}, payload...)), "r": um["r"]})
 			}
 		}
 	default:
